@@ -278,7 +278,12 @@ def serial_with_hydrogens(acc):
                     a.serial = '%5d' % n if n <= 99999 else 'A%04d' % (n - 100000)
                 acc.n += 1
                 acc.nontrivial_n += 1
-                rec = pk.record(pk.run(gen.to_text(atoms), opts))
+                try:
+                    rec = pk.record(pk.run(gen.to_text(atoms), opts))
+                except ValueError as exc:
+                    acc.viols.append(Viol(dict(kind='serial-h', base=name, start=start, opts=list(opts)), 'serial-noeffect', 'valid-serial-rejected/numbering-from-%s' % (
+                        'negative' if start < 0 else 'positive'), 'numbered from %d: %s' % (start, str(exc)[:120]), inputs=dict(pdb=gen.to_text(atoms), opts=list(opts))))
+                    break
                 diff = cmp.diff_records(ref, rec, tol=0.0)
                 acc.outcomes['serial-start-same' if not diff else 'serial-start-diff'] += 1
                 if diff:
